@@ -4,6 +4,8 @@ CONSTANTS Thr = {t1,t2,t3}
  ProcScope = "thread"
  DtorLocked = TRUE
  UsesPlanner = TRUE
+ TableScope = "proc"
+ TempScope = "call"
  DtorFrees = "all"
 INVARIANT ReleasedOnExit
 CHECK_DEADLOCK FALSE
